@@ -55,7 +55,15 @@ def collect(ctx, props, plans, design_cfgs=(), refinement=False, report_deaths=F
                         (", design counterexample for " + cex) if cex else ""))
             first = False
         behs = []
-        for s in range(plan.get("seeds", 1)):
+        if plan.get("cover"):
+            behs, res, exported = run_.cover(plan["steps"], edge=plan.get("edge", False), crash=plan.get("crash", False),
+                                             avoid=plan.get("avoid", True), timeout=plan.get("tlc_timeout", 1500))
+            design.append({"cfg": "Mirror_edgecover.cfg" if plan.get("edge") else "Mirror_cover.cfg", "world": plan["world"],
+                           "checked": "edge cover" if plan.get("edge") else "state cover", "distinct_states": res.get("distinct", 0),
+                           "generated": res.get("states", 0), "design_counterexample": None, "exported": exported, "maximal_behaviours": len(behs)})
+            ctx.log("world %s: %s cover <= %d steps: %s distinct, %d maximal behaviours" % (plan["world"], "edge" if plan.get("edge") else "state",
+                    plan["steps"], res.get("distinct"), len(behs)))
+        for s in range(0 if plan.get("cover") else plan.get("seeds", 1)):
             res = run_.tlc("Mirror_sim.cfg", simulate="num=%d" % plan["sim"], depth=plan["steps"] + 2,
                            extra=["-seed", str(ctx.seed * 1000 + s)], workers=1, timeout=plan.get("tlc_timeout", 900),
                            defines={"MaxSteps": plan["steps"], "AvoidPanics": "TRUE" if plan.get("avoid", True) else "FALSE",
